@@ -153,6 +153,8 @@ def kind_of(v):
         return 'tuple'
     if isinstance(v, SList):
         return 'list'
+    if isinstance(v, SymList):
+        return 'tuple' if v.pytype is tuple else 'list'
     if isinstance(v, SDict):
         return 'dict'
     if isinstance(v, SSet):
